@@ -33,6 +33,7 @@ WEAK = [
     ("Weak_NoCheckpointRecord", "store", None),
     ("Weak_RecoveryCopyDropsValUpdates", "store", None),
     ("Weak_RoundSkipSingleIncrement", "store", "ProposerDeterministic"),
+    ("Weak_PruneStatesOneTooFar", "store", "LookupExact"),
 ]
 
 REAL_CKPT = 100000
@@ -137,6 +138,21 @@ def _run_store(ctx, binp, inp_obj, label):
     return core.read_ndjson(os.path.join(out, "store.ndjson"))
 
 
+CONS_FILES = ["zz_verif_c08_roundskip_test.go", "zz_verif_c08_consprune_test.go"]
+
+
+def _run_consprune(ctx, binp, inp_obj, label):
+    inp = os.path.join(ctx.work, "c08-cp-%s.json" % label)
+    with open(inp, "w") as f:
+        json.dump(inp_obj, f)
+    out = ctx.subdir("c08-cp-" + label)
+    rc, txt = ctx.run_test(binp, "^TestVerifC08ConsPrune$", {"VERIF_IN": inp, "VERIF_OUT": out}, label="consprune-" + label)
+    if rc != 0:
+        ctx.save_log("harness-consprune", txt)
+        raise Undecided("C08 consensus-prune harness failed (rc=%d): %s" % (rc, txt[-1500:]))
+    return core.read_ndjson(os.path.join(out, "consprune.ndjson"))
+
+
 def _run_roundskip(ctx, binp, inp_obj, label):
     inp = os.path.join(ctx.work, "c08-rs-%s.json" % label)
     with open(inp, "w") as f:
@@ -219,7 +235,7 @@ def run(ctx):
 
     # ---- 0. build the harnesses while TLC works ------------------------------------------
     bpool = ThreadPoolExecutor(max_workers=3)
-    fut_cons = bpool.submit(ctx.go_build_test, "consensus", ["zz_verif_c08_roundskip_test.go"], "verif", "consensus_c08")
+    fut_cons = bpool.submit(ctx.go_build_test, "consensus", CONS_FILES, "verif", "consensus_c08")
     fut_types = bpool.submit(ctx.go_build_test, "types", ["zz_verif_c08_test.go"])
     fut_state = bpool.submit(ctx.go_build_test, "state", ["zz_verif_c08_test.go"], "verif", "state_c08")
 
@@ -356,6 +372,10 @@ def run(ctx):
     rows_s = _run_store(ctx, bin_state, {"scheds": store_scheds, "random": T["random_store"]}, "main")
     rs_chains = _roundskip_chains(rot_cases, store_scheds, T["rs_chains"])
     rows_rs = _run_roundskip(ctx, fut_cons.result(), {"chains": rs_chains, "random": T["rs_random"], "maxk": 4}, "main")
+    # pruning through the production caller (*State).pruneBlocks: the store schedules that prune
+    cp_scheds = [sc for sc in store_scheds if sc["mode"] == "genesis" and any(o["op"] == "Prune" for o in sc["ops"])]
+    cp_scheds = cp_scheds[:T["rs_chains"] * 2]
+    rows_cp = _run_consprune(ctx, fut_cons.result(), {"scheds": cp_scheds}, "main")
     n_case_runs = sum(1 for r in rows_t["cases"] if r["ev"] == "Update" and not r["live"])
     if n_case_runs != len(cases):
         raise Undecided("harness executed %d of %d update cases" % (n_case_runs, len(cases)))
@@ -364,7 +384,7 @@ def run(ctx):
     vals = {}
     for name, rows, me in (("cases", rows_t["cases"], 1500), ("rotate", rows_t["rotate"], 1200),
                            ("hist", rows_t["hist"], 1500), ("extreme", rows_t["extreme"], 350),
-                           ("store", rows_s, 1000), ("roundskip", rows_rs, 2500)):
+                           ("store", rows_s, 1000), ("roundskip", rows_rs, 2500), ("consprune", rows_cp, 1000)):
         vals[name] = core.validate_traces(ctx, TRACE, rows, max_events=me, label=name, timeout=1500)
 
     # ---- 5. verdict ---------------------------------------------------------------------------
@@ -389,7 +409,8 @@ def run(ctx):
     for r in rows_rs:
         if r["ev"] == "RoundSkip" and r["err"] == "none":
             distinct.add(hashlib.sha1(json.dumps(["RoundSkip", r["pre"], r["to"] - r["from"]], sort_keys=True).encode()).hexdigest())
-    all_rows = sum(len(r) for r in rows_t.values()) + len(rows_s) + len(rows_rs)
+    _nontrivial([dict(r, ev={"CApply": "Apply", "CPrune": "Prune"}.get(r["ev"], r["ev"])) for r in rows_cp], distinct)
+    all_rows = sum(len(r) for r in rows_t.values()) + len(rows_s) + len(rows_rs) + len(rows_cp)
     lookups = sum(len(r.get("loads", [])) for r in rows_s)
     tlc_all = r_us + [r_r] + store_runs + hist_runs
     sample_store = [r for r in rows_s if r["ev"] == "Apply"][:1]
@@ -426,6 +447,8 @@ def run(ctx):
         "lookups_on_real_store": lookups,
         "round_skips_on_real_consensus_state": sum(1 for r in rows_rs if r["ev"] == "RoundSkip"),
         "round_skip_chains": len(rs_chains),
+        "consensus_prune_schedules": len(cp_scheds),
+        "lookups_after_consensus_prune": sum(len(r.get("loads", [])) for r in rows_cp),
         "events": {k: v["events"] for k, v in vals.items()},
         "conformance_drift": [{"what": d["what"], "detail": d.get("detail"), "step": _slim(d["row"])} for d in drift[:5]],
         "conformance_drift_count": len(drift),
@@ -467,6 +490,10 @@ def run(ctx):
         "validator sets taken from the rotation cases, the store histories and seeded random histories calls "
         "enterNewRound(height, k) from round 0 for k = 1..4 and walk-then-skip (0->1->3->6); cs.Validators must equal k "
         "single rotations of the reference (ProposerDeterministic / roundskip)",
+        "pruning through consensus: the store schedules that prune are also run with a real block store + state store "
+        "pruned by the production caller (*State).pruneBlocks(retainHeight); LoadValidators is asked for every height "
+        "from blockStore.Base() to tip+2 after every step (the State values of that family are assembled by the harness "
+        "from real ValidatorSet operations and saved with the real Store.Save)",
         "the spec models LoadValidators as repaired by proposed-fixes/C08-loadvalidators-per-height-increment.diff "
         "(one IncrementProposerPriority(1) per block); the code as found is the switch Weak_LoadSingleIncrement",
         "the model's checkpoint interval is 3..5; the real interval 100000 is exercised through chains whose "
@@ -520,11 +547,17 @@ def replay(ctx, path):
                 sched["ops"].append({"op": "Prune", "batch": [], "to": r["to"]})
         binp = ctx.go_build_test("state", ["zz_verif_c08_test.go"], "verif", "state_c08")
         rows = _run_store(ctx, binp, {"scheds": [sched], "random": 0}, "replay")
+    elif kind == "consprune":
+        sched = prefix[0].get("sched")
+        if not sched:
+            raise Undecided("replay file has no schedule")
+        binp = ctx.go_build_test("consensus", CONS_FILES, "verif", "consensus_c08")
+        rows = _run_consprune(ctx, binp, {"scheds": [sched]}, "replay")
     elif kind == "roundskip":
         chain = prefix[0].get("chain")
         if not chain:
             raise Undecided("replay file has no chain")
-        binp = ctx.go_build_test("consensus", ["zz_verif_c08_roundskip_test.go"], "verif", "consensus_c08")
+        binp = ctx.go_build_test("consensus", CONS_FILES, "verif", "consensus_c08")
         rows = _run_roundskip(ctx, binp, {"chains": [chain], "random": 0, "maxk": 4}, "replay")
     elif kind == "extreme":
         ctx.seed = int(rep.get("seed", ctx.seed))
